@@ -381,6 +381,28 @@ fn family_header_codec(ctx: &mut Ctx) {
             }
             ctx.seen("H.partial_exponents", format!("{e}"));
         }
+        // partial lengths that have no encoding (2^31, and values that are not a power of two): whatever the header
+        // API answers, octets it writes must read back (reference) as the partial length that was asked for
+        for bad in [1u32 << 31, 3, 6, 513, (1 << 30) + 1, (1 << 30) + (1 << 29), u32::MAX] {
+            for tag in [Tag::LiteralData, Tag::CompressedData, Tag::SymEncryptedProtectedData] {
+                let r = ctx.guarded("C17/header/illegal-partial", || json!({"family": "H", "partial": bad}), || {
+                    PacketHeader::from_parts(PacketHeaderVersion::New, tag, PacketLength::Partial(bad)).and_then(|p| p.to_bytes())
+                });
+                ctx.eval();
+                ctx.seen("H.illegal_partial", format!("{bad}"));
+                if let Some(Ok(b)) = r {
+                    // one header octet + one length octet 224..=254 naming exactly `bad`
+                    let legal = b.len() == 2 && (224..=254).contains(&b[1]) && 1u64 << (b[1] - 224) == bad as u64;
+                    if !legal {
+                        ctx.violation(
+                            "C17/header/illegal-partial-length-written",
+                            format!("PacketHeader::from_parts accepted Partial({bad}) and wrote {} which does not announce a partial chunk of that size", hex::encode(&b)),
+                            json!({"family": "H", "partial": bad, "tag": u8::from(tag)}),
+                        );
+                    }
+                }
+            }
+        }
         ctx.cover(&("H", "big"));
     }
 }
